@@ -47,6 +47,8 @@ CLAIMED = {
          "Every row class x validated field x shape (scalar, vector, matrix) x position of the bad value is enumerated by TLC (693 rows) and concretised with 3 (thorough 25) random invalid values mixed with valid ones; TLC checks that each attempt raised ValueError (FileNotFoundError for a missing figure) and that the control construction with the valid value is accepted."),
  "C20": ("5 C20", "TLC-generated measurement histories (spec/StrWidth.tla) executed on get_string_width + TLC trace validation (spec/WidthTrace.tla) with widths logged exactly in 1/64 px",
          "All histories up to 1 (thorough 2) characters over font x size x character class x unit x dpi plus unsupported font/unit, and 2 000 (thorough 100 000) simulated histories up to 14 characters: TLC checks zero/non-negative/monotone widths per appended character, number-vs-name equality, the monospace law, size scaling within 1 % (integer cross-multiplied), unit conversions within float rounding, and ValueError for unsupported arguments."),
+ "C01": ("5 C01", "TLC-generated configurations (spec/DocConfig.tla, staged generator over 22 dimensions) encoded by the real code + TLC trace validation of the structural event stream with a pushdown acceptor (spec/RtfStream.tla)",
+         "The reduced product (exhaustive) and 500 (thorough 30 000) configurations drawn from the full product - three encoding paths, seven strategies, five header modes, 0..12 rows, component presence, as_table flags, placements, paper, nrow, attribute shapes, integer and half-point sizes, seven cell kinds, contiguous and non-contiguous group_by - are encoded; TLC runs the acceptor over every document's group/row/cell events: one top-level group starting with the signature, balance, nothing after the close, cell boundaries = cell contents, positive non-decreasing boundaries, no lexical error, and ValueError exactly for non-contiguous group_by."),
 }
 PENDING = {}
 
